@@ -27,7 +27,7 @@ TRUSTED = ["Coq 8.16.1 kernel (coqc; coqchk in the thorough tier)",
 ASSUMPTIONS = ["tensors (owned trees) of depth 1-3; points are full points or proper prefixes; handles are written through immediately "
                "(assignment <<= v and in-place += v), which is faithful because no operation of this family ever removes an element",
                "every other operation of the shared model (append, __setitem__, clear, updateCoords, updatePayloads, iterRangeShapeRef and the "
-               "fiber-valued append/extend/__setitem__/<<=) is accepted by the oracle's re-synchronisation branch: C03_model_meets_spec covers "
+               "fiber-valued append/extend/__setitem__ (with or without a coordinate)/<<=) is accepted by the oracle's re-synchronisation branch: C03_model_meets_spec covers "
                "histories that mix them with the access families (stream 'with-mutators')",
                "start_pos: the cases carry a seed k, the shortcut used is k mod len; 'legal' = every coordinate before it is smaller "
                "than the one looked for (getPayload additionally refuses, by its own assertion, a shortcut whose coordinate is larger)"]
